@@ -256,13 +256,13 @@ Proof.
   - intros H. exists (Bad w). split; [exact H|left; reflexivity].
 Qed.
 
-Lemma isect_failures_nil : forall body,
-  isect_failures body = [] <-> (forall x, In (Query x) body -> created x body /\ fed x (window body)).
+Lemma isect_failures_nil : forall c body,
+  isect_failures c body = [] <-> (forall x, In (Query x) body -> created x (c ++ body) /\ fed x (window body)).
 Proof.
-  intros body. unfold isect_failures. rewrite flat_map_nil_iff. split.
+  intros c body. unfold isect_failures. rewrite flat_map_nil_iff. split.
   - intros H x Hx. apply in_queries in Hx. specialize (H x Hx). apply app_nil_both in H. destruct H as [H1 H2].
     split.
-    + apply createdb_iff. destruct (createdb x body); [reflexivity|discriminate].
+    + apply createdb_iff. destruct (createdb x (c ++ body)); [reflexivity|discriminate].
     + apply fedb_iff. destruct (fedb x (window body) false); [reflexivity|discriminate].
   - intros H x Hx. apply in_queries in Hx. destruct (H x Hx) as [H1 H2].
     apply createdb_iff in H1. apply fedb_iff in H2. rewrite H1, H2. reflexivity.
@@ -305,9 +305,9 @@ Qed.
 (* main theorems                                                                               *)
 (* ------------------------------------------------------------------------------------------ *)
 
-Theorem sec_failures_nil_iff : forall p body, sec_failures p body = [] <-> sec_ok p body.
+Theorem sec_failures_nil_iff : forall p c body, sec_failures p c body = [] <-> sec_ok p c body.
 Proof.
-  intros p body. unfold sec_failures, sec_ok.
+  intros p c body. unfold sec_failures, sec_ok.
   rewrite !app_nil_both, window_failures_nil, map_nil_iff, isect_failures_nil, prod_failures_nil.
   split.
   - intros [H1 [H2 [H3 H4]]]. split; [exact H1|]. split; [|split; [|exact H4]].
@@ -318,18 +318,44 @@ Proof.
     + intros x e y q Heq Hq. apply (H3 x e y q Heq Hq).
 Qed.
 
+Lemma secs_failures_nil_iff : forall secs c, secs_failures c secs = [] <-> secs_ok c secs.
+Proof.
+  induction secs as [|s secs IH]; intros c; simpl.
+  - split; auto.
+  - rewrite app_nil_both, sec_failures_nil_iff, IH. reflexivity.
+Qed.
+
 Theorem prog_failures_nil_iff : forall n l, prog_failures n l = [] <-> prog_ok n l.
 Proof.
-  intros n l. unfold prog_failures, prog_ok. rewrite !app_nil_both, flat_map_nil_iff, Forall_forall.
+  intros n l. unfold prog_failures, prog_ok. rewrite !app_nil_both, secs_failures_nil_iff.
   split.
-  - intros [H1 [H2 H3]]. split; [|split].
-    + destruct (fst (split_secs l)); [reflexivity|discriminate].
+  - intros [H1 [H2 H3]]. split; [|split; [|exact H3]].
+    + destruct (forallb is_create (fst (split_secs l))) eqn:E; [|discriminate]. rewrite forallb_forall in E. exact E.
     + destruct (Nat.eqb (length (snd (split_secs l))) n) eqn:E; [apply Nat.eqb_eq; exact E|discriminate].
-    + intros s Hs. apply sec_failures_nil_iff. apply H3. exact Hs.
-  - intros [H1 [H2 H3]]. split; [|split].
-    + rewrite H1. reflexivity.
+  - intros [H1 [H2 H3]]. split; [|split; [|exact H3]].
+    + assert (E : forallb is_create (fst (split_secs l)) = true) by (apply forallb_forall; exact H1). rewrite E. reflexivity.
     + rewrite H2, Nat.eqb_refl. reflexivity.
-    + intros s Hs. apply sec_failures_nil_iff. apply H3. exact Hs.
+Qed.
+
+(* the creations carried over are exactly the Create events that end the segment *)
+Lemma carry_rev_spec : forall l, exists r, l = carry_rev l ++ r /\ (forall e, In e (carry_rev l) -> is_create e = true)
+  /\ match r with [] => True | e :: _ => is_create e = false end.
+Proof.
+  induction l as [|e l [r [H1 [H2 H3]]]]; simpl.
+  - exists []. split; [reflexivity|]. split; [intros e []|exact I].
+  - destruct e; try (eexists; split; [reflexivity|split; [intros e []|reflexivity]]).
+    exists r. split; [simpl; rewrite <- H1; reflexivity|]. split; [|exact H3].
+    intros e [<-|He]; [reflexivity|apply H2; exact He].
+Qed.
+
+Theorem carry_spec : forall l, exists a, l = a ++ carry l /\ (forall e, In e (carry l) -> is_create e = true)
+  /\ match rev a with [] => True | e :: _ => is_create e = false end.
+Proof.
+  intros l. destruct (carry_rev_spec (rev l)) as [r [H1 [H2 H3]]]. exists (rev r). unfold carry.
+  split; [|split].
+  - rewrite <- rev_app_distr, <- H1, rev_involutive. reflexivity.
+  - intros e He. apply H2. apply in_rev. exact He.
+  - rewrite rev_involutive. exact H3.
 Qed.
 
 (* sections: the program is the preamble followed by the sections, each opened by its Begin, and no
@@ -354,48 +380,48 @@ Qed.
 
 (* every file handed to a traffic model is the file of a trace registered (with the same prefix, rank
    and type) inside the collection window of the same section, or the output of an earlier filter step *)
-Theorem ok_traffic_file_produced : forall p body a fs b f,
-  sec_ok p body -> body = a ++ Traffic fs :: b -> In f fs ->
+Theorem ok_traffic_file_produced : forall p c body a fs b f,
+  sec_ok p c body -> body = a ++ Traffic fs :: b -> In f fs ->
   (exists r lab, In (Reg r lab) (window a) /\ f = fname p r lab /\ (is_eager lab = true -> In (Emit lab) (window a)))
   \/ (exists i fl, In (Filter i fl f) a).
 Proof.
-  intros p body a fs b f [_ [_ [H _]]] Heq Hf.
+  intros p c body a fs b f [_ [_ [H _]]] Heq Hf.
   assert (Hq : In (NFile f) (needs (Traffic fs))) by (simpl; apply in_map; exact Hf).
   specialize (H a (Traffic fs) b (NFile f) Heq Hq). simpl in H.
   destruct H as [[r [lab [[H1 H2] H3]]]|H]; [left; exists r, lab; auto|right; exact H].
 Qed.
 
-Theorem ok_filter_inputs_produced : forall p body a i fl o b,
-  sec_ok p body -> body = a ++ Filter i fl o :: b -> produced p a (NFile i) /\ produced p a (NFile fl).
+Theorem ok_filter_inputs_produced : forall p c body a i fl o b,
+  sec_ok p c body -> body = a ++ Filter i fl o :: b -> produced p a (NFile i) /\ produced p a (NFile fl).
 Proof.
-  intros p body a i fl o b [_ [_ [H _]]] Heq.
+  intros p c body a i fl o b [_ [_ [H _]]] Heq.
   split; apply (H a (Filter i fl o) b); try exact Heq; simpl; auto.
 Qed.
 
-Theorem ok_numiters_produced : forall p body a f b,
-  sec_ok p body -> body = a ++ NumIters f :: b -> produced p a (NFile f).
+Theorem ok_numiters_produced : forall p c body a f b,
+  sec_ok p c body -> body = a ++ NumIters f :: b -> produced p a (NFile f).
 Proof.
-  intros p body a f b [_ [_ [H _]]] Heq. apply (H a (NumIters f) b); [exact Heq|simpl; auto].
+  intros p c body a f b [_ [_ [H _]]] Heq. apply (H a (NumIters f) b); [exact Heq|simpl; auto].
 Qed.
 
-Theorem ok_consume_registered : forall p body a r lab b,
-  sec_ok p body -> body = a ++ Consume r lab :: b -> In (Reg r lab) (window a).
+Theorem ok_consume_registered : forall p c body a r lab b,
+  sec_ok p c body -> body = a ++ Consume r lab :: b -> In (Reg r lab) (window a).
 Proof.
-  intros p body a r lab b [_ [_ [H _]]] Heq.
+  intros p c body a r lab b [_ [_ [H _]]] Heq.
   specialize (H a (Consume r lab) b (NLab r lab) Heq). simpl in H. apply H. auto.
 Qed.
 
-Theorem ok_query_created_fed : forall p body x,
-  sec_ok p body -> In (Query x) body -> created x body /\ fed x (window body).
-Proof. intros p body x [_ [_ [_ H]]] Hq. apply H. exact Hq. Qed.
+Theorem ok_query_created_fed : forall p c body x,
+  sec_ok p c body -> In (Query x) body -> created x (c ++ body) /\ fed x (window body).
+Proof. intros p c body x [_ [_ [_ H]]] Hq. apply H. exact Hq. Qed.
 
 (* the window of a section that is ok is closed at depth 0 and no loop lies outside it *)
-Theorem ok_window : forall p body,
-  sec_ok p body ->
+Theorem ok_window : forall p c body,
+  sec_ok p c body ->
   exists mid post, body = mid ++ End :: post /\ ~ In End mid /\ ~ In End post
                    /\ (forall e, In e post -> is_marker e = false) /\ depth mid 0 = Some 0.
 Proof.
-  intros p body [[post [H1 [H2 [H3 H4]]]] _]. exists (window body), post.
+  intros p c body [[post [H1 [H2 [H3 H4]]]] _]. exists (window body), post.
   split; [exact H1|]. split; [apply window_no_end|]. auto.
 Qed.
 
@@ -430,4 +456,16 @@ Proof. intros H. apply prog_failures_nil_iff in H. vm_compute in H. discriminate
 
 Example ex_feed_in_header_rejected :
   ~ prog_ok 1 [Begin "p"; Create 1%positive; Reg "K" "intersect_0"; LoopIn; Consume "K" "intersect_0"; Feed 1%positive; LoopIn; LoopOut; LoopOut; End; Query 1%positive].
+Proof. intros H. apply prog_failures_nil_iff in H. vm_compute in H. discriminate. Qed.
+
+(* creating the intersector before beginCollect (still before the loops) is accepted, also for a later Einsum *)
+Example ex_create_before_begin_ok :
+  prog_ok 2 [Create 1%positive; Begin "p"; Reg "K" "intersect_0"; LoopIn; LoopOut; Consume "K" "intersect_0"; Feed 1%positive; End; Query 1%positive;
+             Create 1%positive; Begin "q"; Reg "K" "intersect_0"; LoopIn; LoopOut; Consume "K" "intersect_0"; Feed 1%positive; End; Query 1%positive].
+Proof. apply prog_failures_nil_iff. vm_compute. reflexivity. Qed.
+
+(* ... but a creation of an EARLIER section does not count for a later one *)
+Example ex_stale_creation_rejected :
+  ~ prog_ok 2 [Begin "p"; Create 1%positive; Reg "K" "intersect_0"; LoopIn; LoopOut; Consume "K" "intersect_0"; Feed 1%positive; End; Query 1%positive;
+               Begin "q"; Reg "K" "intersect_0"; LoopIn; LoopOut; Consume "K" "intersect_0"; Feed 1%positive; End; Query 1%positive].
 Proof. intros H. apply prog_failures_nil_iff in H. vm_compute in H. discriminate. Qed.
